@@ -87,16 +87,21 @@ pub fn damages(op: usize, text: &str, sites: &[Site], stream: &Stream) -> Vec<(S
         }
         5 => {
             for s in sites {
-                if let Site::FlowContLine { line_start, indent, block_n } = s {
+                if let Site::FlowContLine { line_start, indent, block_n, plain_before } = s {
                     if *block_n >= 0 {
                         let first = b.get(*line_start + *indent).copied().unwrap_or(b'\n');
-                        let class: &'static str = match first {
-                            b'"' | b'\'' => "flow-cont:quoted",
-                            b']' | b'}' => "flow-cont:closer",
-                            b',' => "flow-cont:comma",
-                            b'[' | b'{' => "flow-cont:opener",
-                            b'#' | b'\n' => continue,
-                            b'&' | b'*' | b'!' | b'?' | b':' => "flow-cont:indicator",
+                        let class: &'static str = match (first, *plain_before) {
+                            (b'"' | b'\'', false) => "flow-cont:quoted",
+                            (b']' | b'}', false) => "flow-cont:closer",
+                            (b',', false) => "flow-cont:comma",
+                            (b'[' | b'{', false) => "flow-cont:opener",
+                            (b'#' | b'\n', _) => continue,
+                            (b'&' | b'*' | b'!' | b'?' | b':', false) => "flow-cont:indicator",
+                            (b'"' | b'\'', true) => "flow-cont:quoted:after-plain-scalar",
+                            (b']' | b'}', true) => "flow-cont:closer:after-plain-scalar",
+                            (b',', true) => "flow-cont:comma:after-plain-scalar",
+                            (b'[' | b'{', true) => "flow-cont:opener:after-plain-scalar",
+                            (b'&' | b'*' | b'!' | b'?' | b':', true) => "flow-cont:indicator:after-plain-scalar",
                             _ => "flow-cont:plain",
                         };
                         let new = *block_n as usize; // exactly the block's indentation: not deeper
@@ -133,6 +138,12 @@ pub fn damages(op: usize, text: &str, sites: &[Site], stream: &Stream) -> Vec<(S
                         };
                         out.push((format!("{}{}{}", &text[..at], "x".repeat(1100), &text[at..]), class));
                     }
+                }
+                if let Site::CollectionKey { after_open, map, flow_pair } = s {
+                    // a flow collection as implicit key, made longer than 1024 characters by a first entry
+                    let entry = if *map { format!("{}: 1, ", "x".repeat(1100)) } else { format!("{}, ", "x".repeat(1100)) };
+                    let class = if *flow_pair { "long-collection-key-in-flow-pair" } else { "long-collection-key" };
+                    out.push((format!("{}{}{}", &text[..*after_open], entry, &text[*after_open..]), class));
                 }
             }
         }
